@@ -128,8 +128,10 @@ class PolicyDirectoryMonitor(multiprocessing.Process):
                         self.policy_cache[p] = []
                     self.policy_store[p] = new_p.get(p)
                     self.policy_map[p] = f
+                for p in self.policy_cache.keys():
+                    if p not in new_p:
+                        self.disassociate_policy_and_file(p, f)
                 for p in set(old_p) - set(new_p.keys()):
-                    self.disassociate_policy_and_file(p, f)
                     self.restore_or_delete_policy(p)
 
     def run(self):
